@@ -16,7 +16,7 @@ def showMSeq : MSeq → String
   | .bases s => "." ++ String.ofList s
 
 def showRG (g : RGChild) : String :=
-  s!"{g.guid} {g.start} {g.stop} {if g.same then "=" else "!"} {showMSeq g.mseq}"
+  s!"{g.guid} {g.start} {g.stop} {strandSym g.strand} {if g.same then "=" else "!"} {showMSeq g.mseq}"
 
 def showRChild (c : RChild) : String :=
   s!"{c.guid} {showKind c.kind} {c.start} {c.stop} {showIdents c.idents} {c.gcs.length}"
